@@ -1,4 +1,7 @@
 import FxVerif.Model.C17
+import FxVerif.Model.C17Proc
+import FxVerif.Model.C17Machine
+import FxVerif.Proofs.C17
 /-!
 # C17 — deterministic block execution (the part a Lean model can carry)
 
@@ -6,7 +9,17 @@ import FxVerif.Model.C17
 inventory with a class consistent with what the typed translator saw (`inventory_covered`, re-decided on every run);
 (b) for each class, the modelled computation is independent of the iteration order (permutation of the entries), hence
 of Go's randomised map order.  IEEE-754 exactness of integer sums below 2^53 is the named assumption for `permSum`.
-Process-, scheduler- and dependency-level nondeterminism is outside the model: validated by repeated-process runs.
+(c) every write to process-level memory (package variables, long-lived struct fields, sync / cache types) found by the
+typed translator is in the reviewed allow-list with an admissible class (`no_process_state`); for the node model (chain
+state on disk, memory in the process; block transactions, CheckTx / simulations / queries, restarts) the observations of
+the block history do not depend on the process history when memory cannot influence state and output
+(`process_history_irrelevant`, corollaries for construction-time wiring and unmetered memo tables), and do depend on it for
+a cache whose hit is cheaper than its miss (`cached_gas_breaks_determinism`).
+(d) the block machine of `Model/C17Machine.lean` (the anchored map-consuming steps with an adversarial schedule of map
+iteration orders) ends in the same state with the same outputs for all schedules and all operation lists
+(`run_schedule_independent`); the variant of `UpdateProposalOracles` that collects the oracles to unbond by ranging over a
+map does not (`mapFed_unbond_schedule_dependent`); which variant the source has is regenerated (`unbond_order_from_store`).
+Scheduler-, allocator- and dependency-level nondeterminism is outside the model: validated by repeated-process runs.
 -/
 namespace FxVerif.Props.C17
 open FxVerif.Gen.C17 FxVerif.Model.C17 List
@@ -42,6 +55,24 @@ theorem prefix_sums_exact (l : List Int) (hb : ∀ v ∈ l, v.natAbs ≤ 2 ^ 32)
   have := key (l.take k) (fun v hv => hb v (mem_of_mem_take hv))
   have h3 : (l.take k).length * 2 ^ 32 ≤ 2 ^ 20 * 2 ^ 32 := Nat.mul_le_mul_right _ hlen
   omega
+
+/-- PowerDiff, with the float arithmetic modelled (`round53`, `fadd`): accumulating the absolute differences in ANY
+iteration order gives exactly the integer sum, when the per-member differences are at most 2^32 and there are at most
+2^20 members — no rounding ever happens -/
+theorem fsumAbs_exact (l : List Int) (hb : ∀ v ∈ l, v.natAbs ≤ 2 ^ 32) (hn : l.length ≤ 2 ^ 20) : fsumAbs l = absSum l := by
+  have h1 := FxVerif.Proofs.C17.absSum_le_of_bound l hb
+  have h3 : l.length * 2 ^ 32 ≤ 2 ^ 20 * 2 ^ 32 := Nat.mul_le_mul_right _ hn
+  have := FxVerif.Proofs.C17.foldl_fadd_exact l 0 (by omega)
+  simpa [fsumAbs] using this
+
+/-- … hence the float the loop computes is the same for every iteration order of the map -/
+theorem fsumAbs_perm {l₁ l₂ : List Int} (h : l₁.Perm l₂) (hb : ∀ v ∈ l₁, v.natAbs ≤ 2 ^ 32) (hn : l₁.length ≤ 2 ^ 20) :
+    fsumAbs l₁ = fsumAbs l₂ := by
+  rw [fsumAbs_exact l₁ hb hn, fsumAbs_exact l₂ (fun v hv => hb v (h.mem_iff.mpr hv)) (by rw [← h.length_eq]; exact hn)]
+  exact absSum_perm h
+
+/-- the magnitude bound is needed: beyond 2^53 float accumulation depends on the order -/
+theorem fsumAbs_order_matters_beyond_2_53 : fsumAbs [2 ^ 53, 1, 1] ≠ fsumAbs [1, 1, 2 ^ 53] := by decide
 
 /-- collect-then-sort with distinct keys: any two strictly sorted arrangements of the same entries are equal, so the
 result of *any* correct sort (Go's unstable `sort.Slice` included) is independent of the collection order -/
@@ -113,7 +144,184 @@ theorem tokenTotals_perm {l₁ l₂ : List (String × Nat × Nat)} (h : l₁.Per
   simp only [Prod.mk.injEq]
   exact ⟨(hf.map _).sum_nat, (hf.map _).sum_nat, hf.length_eq⟩
 
+/-! ## (c) process-level mutable state -/
+
+/-- obligation over the regenerated inventory of process-level mutable state -/
+theorem no_process_state : procSites.all psCovered = true := by decide
+
+/-- a node's state and the outputs of its delivered transactions depend only on the block history — not on restarts,
+served CheckTx / simulations / queries, or the memory it started with — whenever there is an invariant of process memory
+that holds after construction, is preserved by every handler, and under which state effect and output of a handler do not
+depend on the memory content -/
+theorem process_history_irrelevant {M S I O : Type} (h : Handler M S I O) (m₀ : M) (Inv : M → Prop) (hinit : Inv m₀)
+    (hpres : ∀ m s i, Inv m → Inv (h m s i).1)
+    (hindep : ∀ m m' s i, Inv m → Inv m' → (h m s i).2 = (h m' s i).2)
+    (evs₁ evs₂ : List (Ev I)) (hb : blocksOf evs₁ = blocksOf evs₂) (n₁ n₂ : Node M S) (hs : n₁.st = n₂.st)
+    (h₁ : Inv n₁.mem) (h₂ : Inv n₂.mem) :
+    (runEvs h m₀ n₁ evs₁).1.st = (runEvs h m₀ n₂ evs₂).1.st ∧ (runEvs h m₀ n₁ evs₁).2 = (runEvs h m₀ n₂ evs₂).2 := by
+  have r₁ := FxVerif.Proofs.C17.run_eq_pure h m₀ Inv hinit hpres hindep evs₁ n₁ h₁
+  have r₂ := FxVerif.Proofs.C17.run_eq_pure h m₀ Inv hinit hpres hindep evs₂ n₂ h₂
+  rw [r₁.1, r₁.2, r₂.1, r₂.2, hb, hs]
+  exact ⟨rfl, rfl⟩
+
+/-- class `wiring`: memory that is only written by construction (`m₀`, a function of nothing) and read-only for every
+handler cannot make two nodes disagree, whatever their process histories -/
+theorem wiring_process_history_irrelevant {M S I O : Type} (h : Handler M S I O) (m₀ : M)
+    (hro : ∀ m s i, (h m s i).1 = m) (evs₁ evs₂ : List (Ev I)) (hb : blocksOf evs₁ = blocksOf evs₂) (s : S) :
+    (runEvs h m₀ ⟨m₀, s⟩ evs₁).1.st = (runEvs h m₀ ⟨m₀, s⟩ evs₂).1.st ∧
+    (runEvs h m₀ ⟨m₀, s⟩ evs₁).2 = (runEvs h m₀ ⟨m₀, s⟩ evs₂).2 :=
+  process_history_irrelevant h m₀ (fun m => m = m₀) rfl (fun m s i hm => by rw [hro]; exact hm)
+    (fun m m' s i hm hm' => by rw [hm, hm']) evs₁ evs₂ hb _ _ rfl rfl rfl
+
+/-- an unmetered memo table of a pure function is invisible: nodes with arbitrary (valid) table contents agree -/
+theorem memo_process_history_irrelevant (f : String → Nat) (evs₁ evs₂ : List (Ev String)) (hb : blocksOf evs₁ = blocksOf evs₂)
+    (mem₁ mem₂ : List (String × Nat)) (v₁ : ∀ e ∈ mem₁, e.2 = f e.1) (v₂ : ∀ e ∈ mem₂, e.2 = f e.1) (s : Nat) :
+    (runEvs (memoHandler f) [] ⟨mem₁, s⟩ evs₁).1.st = (runEvs (memoHandler f) [] ⟨mem₂, s⟩ evs₂).1.st ∧
+    (runEvs (memoHandler f) [] ⟨mem₁, s⟩ evs₁).2 = (runEvs (memoHandler f) [] ⟨mem₂, s⟩ evs₂).2 := by
+  have key : ∀ (m : List (String × Nat)) (s : Nat) (k : String), (∀ e ∈ m, e.2 = f e.1) →
+      (memoHandler f m s k).2 = (s + f k, f k) ∧ (∀ e ∈ (memoHandler f m s k).1, e.2 = f e.1) := by
+    intro m s k hm
+    unfold memoHandler
+    split
+    · rename_i e he
+      have hmem := mem_of_find?_eq_some he
+      have hk : e.1 = k := by simpa using find?_some he
+      rw [hm e hmem, hk]
+      exact ⟨rfl, hm⟩
+    · refine ⟨rfl, ?_⟩
+      intro e he
+      rcases mem_cons.mp he with h1 | h1
+      · rw [h1]
+      · exact hm e h1
+  exact process_history_irrelevant (memoHandler f) [] (fun m => ∀ e ∈ m, e.2 = f e.1) (by simp)
+    (fun m s i hm => (key m s i hm).2)
+    (fun m m' s i hm hm' => by rw [(key m s i hm).1, (key m' s i hm').1]) evs₁ evs₂ hb _ _ rfl v₁ v₂
+
+/-- two replicas running different binaries of the same code (`h₁`, `h₂`) with their own memories and process histories
+agree on final state and delivered outputs whenever the block histories are equal and the handlers agree on state effect
+and output under the memory invariants -/
+theorem replicas_agree {M₁ M₂ S I O : Type} (r₁ : Replica M₁ S I O) (r₂ : Replica M₂ S I O)
+    (Inv₁ : M₁ → Prop) (Inv₂ : M₂ → Prop) (i₁ : Inv₁ r₁.m₀) (i₂ : Inv₂ r₂.m₀)
+    (p₁ : ∀ m s i, Inv₁ m → Inv₁ (r₁.h m s i).1) (p₂ : ∀ m s i, Inv₂ m → Inv₂ (r₂.h m s i).1)
+    (hag : ∀ m₁ m₂ s i, Inv₁ m₁ → Inv₂ m₂ → (r₁.h m₁ s i).2 = (r₂.h m₂ s i).2)
+    (hb : blocksOf r₁.evs = blocksOf r₂.evs) (s : S) : r₁.run s = r₂.run s := by
+  have a₁ := FxVerif.Proofs.C17.run_eq_pure r₁.h r₁.m₀ Inv₁ i₁ p₁
+    (fun m m' s i hm hm' => (hag m r₂.m₀ s i hm i₂).trans (hag m' r₂.m₀ s i hm' i₂).symm) r₁.evs ⟨r₁.m₀, s⟩ i₁
+  have a₂ := FxVerif.Proofs.C17.run_eq_pure r₂.h r₂.m₀ Inv₂ i₂ p₂
+    (fun m m' s i hm hm' => (hag r₁.m₀ m s i i₁ hm).symm.trans (hag r₁.m₀ m' s i i₁ hm')) r₂.evs ⟨r₂.m₀, s⟩ i₂
+  have c := FxVerif.Proofs.C17.runPure_congr r₁.h r₂.h r₁.m₀ r₂.m₀ (fun s i => hag r₁.m₀ r₂.m₀ s i i₁ i₂) (blocksOf r₂.evs) s
+  unfold Replica.run
+  simp only [a₁.1, a₁.2, a₂.1, a₂.2, hb]
+  rw [c]
+
+/-- the seeded shape: a keeper-level cache whose hit costs less gas than its miss.  The same block history gives
+different transaction results on a node that was restarted in between, and on a node that served a simulation first -/
+theorem cached_gas_breaks_determinism :
+    (∃ evs₁ evs₂ : List (Ev String), blocksOf evs₁ = blocksOf evs₂ ∧
+      (runEvs gasCacheHandler [] ⟨[], 0⟩ evs₁).2 ≠ (runEvs gasCacheHandler [] ⟨[], 0⟩ evs₂).2) ∧
+    (runEvs gasCacheHandler [] ⟨[], 0⟩ [.deliver "a", .deliver "a"]).2 ≠
+      (runEvs gasCacheHandler [] ⟨[], 0⟩ [.deliver "a", .restart, .deliver "a"]).2 ∧
+    (runEvs gasCacheHandler [] ⟨[], 0⟩ [.deliver "a"]).2 ≠ (runEvs gasCacheHandler [] ⟨[], 0⟩ [.serve "a", .deliver "a"]).2 :=
+  ⟨⟨[.deliver "a", .deliver "a"], [.deliver "a", .restart, .deliver "a"], rfl, by decide⟩, by decide, by decide⟩
+
+/-! ## (d) the block machine: all schedules of map iteration give the same execution -/
+
+/-- regenerated order source of the unbonding loop of `UpdateProposalOracles`: the store iteration, not a map -/
+theorem unbond_order_from_store : unbondFedByMap = false ∧ unbondFedByStore = true := by decide
+
+/-- no locally collected slice that is then ranged over with effects is appended to inside a range over a map (unless it
+is sorted afterwards) -/
+theorem effect_slices_not_fed_by_maps : sliceFeeders.all (fun f => f.kind != "map" || f.sorted) = true := by decide
+
+/-- one operation: final state and output are the same for any two schedules -/
+theorem exec_schedule_independent (σ₁ σ₂ : Sched) (st : St) (op : Op) : execP false σ₁ st op = execP false σ₂ st op := by
+  cases op with
+  | updateOracles new => rfl
+  | tally vals =>
+    have hp : (σ₁.pick st.ranges _ vals).Perm (σ₂.pick st.ranges _ vals) := (σ₁.perm _ _ _).trans (σ₂.perm _ _ _).symm
+    simp only [execP, rangeMap]
+    rw [tally_perm (hp.map _)]
+  | batchFees pool mx base =>
+    simp only [execP, getAllBatchFees, rangeMap]
+    have hn := FxVerif.Proofs.C17.nodup_createBatchFees pool mx base
+    have hp : (σ₁.pick st.ranges _ (createBatchFees pool mx base)).Perm (σ₂.pick st.ranges _ (createBatchFees pool mx base)) :=
+      (σ₁.perm _ _ _).trans (σ₂.perm _ _ _).symm
+    have heq := FxVerif.Proofs.C17.mergeSort_eq_of_perm feeLe
+      (fun a b c => FxVerif.Proofs.C17.strLe_trans a.1 b.1 c.1) (fun a b => FxVerif.Proofs.C17.strLe_total a.1 b.1) hp
+      (fun a b ha hb h1 h2 => FxVerif.Proofs.C17.eq_of_key_eq _ hn a b ((σ₁.perm _ _ _).mem_iff.mp ha) ((σ₁.perm _ _ _).mem_iff.mp hb)
+        (FxVerif.Proofs.C17.strLe_antisymm _ _ h1 h2))
+    rw [heq]
+  | powerDiff cur latest =>
+    have hp : (σ₁.pick st.ranges _ (mergePowers cur latest)).Perm (σ₂.pick st.ranges _ (mergePowers cur latest)) :=
+      (σ₁.perm _ _ _).trans (σ₂.perm _ _ _).symm
+    simp only [execP, rangeMap]
+    rw [absSum_perm (hp.map _)]
+  | supportChains reg =>
+    have hp : (σ₁.pick st.ranges _ reg).Perm (σ₂.pick st.ranges _ reg) := (σ₁.perm _ _ _).trans (σ₂.perm _ _ _).symm
+    simp only [execP, rangeMap, sortChains]
+    rw [FxVerif.Proofs.C17.mergeSort_eq_of_perm strLe FxVerif.Proofs.C17.strLe_trans FxVerif.Proofs.C17.strLe_total hp
+      (fun a b _ _ => FxVerif.Proofs.C17.strLe_antisymm a b)]
+
+/-- all histories: for every list of operations, from every state, any two schedules of map iteration orders produce the
+same final state (hence the same application hash) and the same outputs, operation by operation -/
+theorem run_schedule_independent (σ₁ σ₂ : Sched) : ∀ (ops : List Op) (st : St), runP false σ₁ st ops = runP false σ₂ st ops := by
+  intro ops
+  induction ops with
+  | nil => intro st; rfl
+  | cons op rest ih =>
+    intro st
+    simp only [runP]
+    rw [exec_schedule_independent σ₁ σ₂ st op, ih]
+
+/-- … and this is the machine of the source as it is now (the order source is regenerated) -/
+theorem run_schedule_independent_source (σ₁ σ₂ : Sched) (ops : List Op) (st : St) : run σ₁ st ops = run σ₂ st ops := by
+  unfold run
+  rw [unbond_order_from_store.1]
+  exact run_schedule_independent σ₁ σ₂ ops st
+
+/-- the property for the modelled steps, both dimensions at once: two replicas of the block machine with different
+map-iteration schedules `σ₁ σ₂` AND different process histories (restarts, served CheckTx / simulations / queries — the
+machine keeps nothing in process memory) that were given the same blocks end in the same state with the same outputs -/
+theorem machine_replicas_agree (σ₁ σ₂ : Sched) (evs₁ evs₂ : List (Ev Op)) (hb : blocksOf evs₁ = blocksOf evs₂) (st : St) :
+    (Replica.run ⟨fun (_ : Unit) s op => ((), exec σ₁ s op), (), evs₁⟩ st) =
+    (Replica.run ⟨fun (_ : Unit) s op => ((), exec σ₂ s op), (), evs₂⟩ st) := by
+  apply replicas_agree _ _ (fun _ => True) (fun _ => True) trivial trivial (fun _ _ _ _ => trivial) (fun _ _ _ _ => trivial) _ hb
+  intro _ _ s op _ _
+  show (((), exec σ₁ s op) : Unit × St × Out).2 = (((), exec σ₂ s op) : Unit × St × Out).2
+  simp only [exec]
+  rw [unbond_order_from_store.1, exec_schedule_independent σ₁ σ₂ s op]
+
+/-- a tally loop that is left early (`accumulate+exit`) depends on the iteration order: the reviewed classes rightly do not
+admit it -/
+theorem early_exit_tally_schedule_dependent :
+    ∃ (l₁ l₂ : List Vec5), l₁.Perm l₂ ∧ tallyUntil 5 (0, 0, 0, 0, 0) l₁ ≠ tallyUntil 5 (0, 0, 0, 0, 0) l₂ :=
+  ⟨[(6, 0, 0, 0, 6), (0, 0, 3, 0, 3)], [(0, 0, 3, 0, 3), (6, 0, 0, 0, 6)], Perm.swap _ _ _, by decide⟩
+
+/-- the order of the two steps matters: unbonding is not commutative (unbonding ids, queue order, events) -/
+theorem unbond_order_observable :
+    ∃ (st : St) (a b : Oracle), unbondAll st [a, b] ≠ unbondAll st [b, a] :=
+  ⟨⟨[⟨"o1", 1, true, 5⟩, ⟨"o2", 1, true, 5⟩], ["o1", "o2"], 7, [], [], 0⟩, ⟨"o1", 1, true, 5⟩, ⟨"o2", 1, true, 5⟩, by decide⟩
+
+/-- if the list of oracles to unbond is collected by ranging over a map (the seeded variant), two schedules give
+different states for the same proposal: the property fails -/
+theorem mapFed_unbond_schedule_dependent :
+    ∃ (st : St) (new : List String),
+      execP true Sched.id st (.updateOracles new) ≠ execP true Sched.rev st (.updateOracles new) :=
+  ⟨⟨[⟨"o1", 1, true, 5⟩, ⟨"o2", 1, true, 5⟩, ⟨"o3", 10, true, 5⟩], ["o1", "o2", "o3"], 7, [], [], 0⟩, ["o3"], by decide⟩
+
+/-- in the source's variant the oracles are unbonded in store order: the unbonded addresses form a sublist of the store
+iteration -/
+theorem unbondList_store_order (σ : Sched) (st : St) (new : List String) :
+    ((unbondList false σ st new).1.map (·.addr)).Sublist (st.oracles.map (·.addr)) := by
+  simp only [unbondList, Bool.false_eq_true, if_false]
+  exact (filter_sublist).map _
+
 -- non-vacuity
+example : procSites.length ≥ 5 := by decide
+example : sliceFeeders.length ≥ 2 := by decide
+example : (run Sched.id ⟨[⟨"o1", 1, true, 5⟩, ⟨"o2", 1, true, 5⟩, ⟨"o3", 10, true, 5⟩], ["o1", "o2", "o3"], 7, [], [], 0⟩
+    [.updateOracles ["o3"], .powerDiff [("a", 5), ("b", 7)] [("b", 2), ("c", 4)]]).2 = [.unbonded [("o1", 7), ("o2", 8)], .num 14] := by decide
+example : createBatchFees [⟨"b", 5, 10⟩, ⟨"a", 1, 5⟩, ⟨"b", 3, 7⟩, ⟨"b", 2, 1⟩] 2 [("a", 2)] = [("b", 8, 17, 2)] := by decide
 example : sites.length ≥ 20 := by decide
 example : absSum [3, -4, 0] = 7 := by decide
 example : powerDiffNumerator [("a", 5), ("b", 7)] [("b", 2), ("c", 4)] = 5 + 5 + 4 := by decide
